@@ -16,14 +16,15 @@ import (
 type condAtoms struct {
 	// assumed concrete facts (for infeasibility proofs): the length of one sequence and the value of
 	// string subjects named by their structural path
-	lenSeq  func(ssa.Value) bool // is this value the sequence whose length is assumed?
-	lenVal  int64
-	hasLen  bool
-	strVals map[string]string // pathName of a string value → assumed value ("\x00other" = none of the constants)
-	pred    *ssa.Function     // calls of this function are atom "P"
-	strEq   map[string]string // constant string → atom name: (x == const) is that atom
-	assign  map[string]bool   // atom → value
-	helpers map[*ssa.Function]int
+	lenSeq   func(ssa.Value) bool // is this value the sequence whose length is assumed?
+	lenVal   int64
+	hasLen   bool
+	strVals  map[string]string // pathName of a string value → assumed value ("\x00other" = none of the constants)
+	pred     *ssa.Function     // calls of this function are atom "P"
+	strEq    map[string]string // constant string → atom name: (x == const) is that atom
+	assign   map[string]bool   // atom → value
+	helpers  map[*ssa.Function]int
+	boolVals map[ssa.Value]bool // assumed values of individual boolean SSA values
 }
 
 type tri int
@@ -105,6 +106,11 @@ func (a *condAtoms) run(fn *ssa.Function, depth int) *condRun {
 func (r *condRun) eval(v ssa.Value, d int) tri {
 	if d > 10 {
 		return triUnknown
+	}
+	if r.a.boolVals != nil {
+		if bv, has := r.a.boolVals[v]; has {
+			return triOf(bv)
+		}
 	}
 	switch x := v.(type) {
 	case *ssa.Const:
